@@ -8,10 +8,14 @@ LEVEL_TEXT = {
     "C08": "Bounded model checking (Kani/CBMC, SAT-decided) of the real decoders and entry points compiled from /repo: for each stated shape every octet content, every index value and every declared count is symbolic, and the checked condition is the absence of panics, arithmetic overflow, out-of-range indexing and unbounded generator requests. A pass is a bounded guarantee for the listed shapes, not a proof for all lengths.",
     "C09": "Bounded model checking of the real encode/decode functions: for every symbolic octet string of each stated length, acceptance implies that re-encoding reproduces the input exactly and that no forbidden identity/zero value is inside; for every symbolic object value of the stated shapes decode(encode(x)) == x.",
 }
+LEVEL_TEXT["C10"] = "Bounded model checking of the real deterministic building blocks (I2OSP at full 64-bit width, hash_to_scalar, KeyGen/SkToPk with its size limits, create_generators, messages_to_scalar, blind challenge) against an independent transcription of the drafts that is itself validated on all fixture files with the real crates: equality of outputs for every symbolic input of the stated small shapes. The composite operations (sign, proofs, verifiers) and thread interleavings are NOT covered by this check."
+LEVEL_TEXT["C12"] = "Bounded model checking of the real update_signature as a one-step inductive contract: for an arbitrary decodable signature (A, e), any key, any old/new octet and each concrete (n, position) shape, the result keeps e and satisfies A'(sk+e) = A(sk+e) - H_i*old + H_i*new, and out-of-range positions (up to usize::MAX) are refused without panic. By induction this gives the statement for update histories of any length; the chain itself is not executed."
 NOTES = {
     "C08": "bls12_381_plus / elliptic-curve / rand are replaced by model crates (prime-order group as discrete logs mod 257, logged deterministic oracle, unconstrained randomness); generator creation and message-to-scalar hashing are stubbed by tables in operation harnesses; CBMC pointer-validity checks are ignored because zkryptium is safe Rust (checked at run time); inputs longer than the stated lengths, serde_json decoding and wall-clock time are outside.",
     "C09": "what the real bls12_381_plus accepts as a point or scalar is outside (model codecs are canonical by construction); JSON codec outside; lengths beyond the stated ranges outside.",
 }
+NOTES["C10"] = "model dependencies as for C08: equality is over the model oracle (deterministic fold) and model group, i.e. what is compared is everything zkryptium feeds to expand_message / the group (framing, DSTs, order, lengths), not SHA/SHAKE or curve arithmetic; messages/DSTs/key material restricted to a few symbolic octets per query; sign/verify/proof conformance and the 16-thread interleavings are outside (pure functions; no solver-level concurrency)."
+NOTES["C12"] = "generators come from a fixed table stub (real generator creation is checked in C10); message-to-scalar hashing is real; degenerate cases sk+e = 0 and B' = identity (probability 1/r in the real group) are excluded; the induction step from the contract to histories is an argument in DESIGN.md, not a solver query; verification of the updated signature relies on the verify relation A(sk+e) = B which is not re-checked here."
 TECH = "bounded model checking of the compiled Rust code (Kani 0.68 -> CBMC 6.11 -> CaDiCaL), one symbolic query per shape, counterexamples replayed on the real build"
 
 NOT_APPLICABLE = {
@@ -26,9 +30,12 @@ NOT_APPLICABLE = {
 PENDING = {}
 
 
+CLAIMED = ["C08", "C09", "C10", "C12"]
+
+
 def main():
     checks = []
-    for pid in sorted(PROPS):
+    for pid in CLAIMED:
         checks.append(dict(
             property_id=pid,
             quick_cmd="./check %s --tier quick" % pid,
@@ -43,14 +50,14 @@ def main():
     na = [dict(property_id=k, reason=v) for k, v in sorted(NOT_APPLICABLE.items())]
     allp = ["C%02d" % i for i in range(1, 20)]
     for p in allp:
-        if p not in PROPS and p not in NOT_APPLICABLE:
+        if p not in CLAIMED and p not in NOT_APPLICABLE:
             na.append(dict(property_id=p, reason=PENDING.get(p, "not claimed: the solver-based harnesses for this property have not been shown to close within the time caps (see DESIGN.md §0); no check is registered rather than one that does not finish")))
     m = dict(
         version=1,
         setup_cmd="./setup.sh",
         hooks=dict(guard="cfg(kani)", enable="cargo kani sets --cfg kani; no source hook is currently present in /repo (harnesses live in /verif/harness and use [patch.crates-io] model dependencies)",
                    baseline_off_cmd="cd /repo && cargo test --workspace --no-fail-fast --offline", source_commits=[], add_only=True),
-        engines=[dict(name="kani-cbmc", path="/verif/check", serves_properties=sorted(PROPS),
+        engines=[dict(name="kani-cbmc", path="/verif/check", serves_properties=CLAIMED,
                       kind_free_text="Kani 0.68 proof harnesses generated per shape by /verif/vlib, run through cargo kani (CBMC 6.11 + CaDiCaL); counterexamples replayed natively on the model and then on the real crates by /verif/replay")],
         checks=checks,
         notes="see DESIGN.md; known_findings.json lists fixed defects (F1-F5, F11).",
